@@ -463,17 +463,37 @@ pub fn seed_for_first_u64(out: u64) -> [u8; 32] {
     seed
 }
 
-/// SmallRng whose first `random::<f32>()` is exactly `k * 2^-24` (k < 2^24).
+/// Bits of the generator word that the uniform conversion DISCARDS (low 40 bits for f32, low 11 for f64), by pattern:
+/// 0 all zeros, 1 all ones, 2 only the top discarded bit (a rounding tie), 3 all but the top one. The statement's draw
+/// is the variate; an implementation whose decision depends on the discarded bits (rounding instead of truncating,
+/// going through another float type) is exposed by the non-zero patterns.
+pub fn discarded_bits(width: u32, pat: u8) -> u64 {
+    let all = (1u64 << width) - 1;
+    match pat {
+        0 => 0,
+        1 => all,
+        2 => 1u64 << (width - 1),
+        _ => all >> 1,
+    }
+}
+
+/// SmallRng whose first `random::<f32>()` is exactly `k * 2^-24` (k < 2^24); discarded bits all ones.
 pub fn rng_first_f32(k: u32) -> rand::rngs::SmallRng {
+    rng_first_f32_pat(k, 1)
+}
+pub fn rng_first_f32_pat(k: u32, pat: u8) -> rand::rngs::SmallRng {
     use rand::SeedableRng;
     // f32 = (next_u32 >> 8) * 2^-24 ; next_u32 = (next_u64 >> 32)
-    let out: u64 = ((k as u64) << 8) << 32;
+    let out: u64 = (((k as u64) << 8) << 32) | discarded_bits(40, pat);
     rand::rngs::SmallRng::from_seed(seed_for_first_u64(out))
 }
 
-/// SmallRng whose first `random::<f64>()` is exactly `k * 2^-53` (k < 2^53).
+/// SmallRng whose first `random::<f64>()` is exactly `k * 2^-53` (k < 2^53); discarded bits all ones.
 pub fn rng_first_f64(k: u64) -> rand::rngs::SmallRng {
+    rng_first_f64_pat(k, 1)
+}
+pub fn rng_first_f64_pat(k: u64, pat: u8) -> rand::rngs::SmallRng {
     use rand::SeedableRng;
-    let out: u64 = k << 11;
+    let out: u64 = (k << 11) | discarded_bits(11, pat);
     rand::rngs::SmallRng::from_seed(seed_for_first_u64(out))
 }
